@@ -176,7 +176,19 @@ func C01(tier string) int {
 		run.Violate(v.Key, v.What, map[string]any{"check": "C01", "path": path, "path_text": pathStrings(path)})
 	}
 	// Phase (i): closure on key A alone.
-	ops1 := append(attSingles(0, E, true), attBatches(0, 1, tier == "thorough")...)
+	InstallSigFaults()
+	// withWriteFaults adds, for every batch, the same batch served while the store refuses writes.
+	withWriteFaults := func(ops []SOp) []SOp {
+		out := append([]SOp{}, ops...)
+		for _, o := range ops {
+			if o.Kind == "atts" {
+				o.Fault = "write"
+				out = append(out, o)
+			}
+		}
+		return out
+	}
+	ops1 := withWriteFaults(append(attSingles(0, E, true), attBatches(0, 1, tier == "thorough")...))
 	var legacy1 []SOp
 	for _, st := range [][2]uint64{{0, 0}, {0, 1}, {1, 2}} {
 		legacy1 = append(legacy1, SOp{Kind: "legacy-att", Ents: []Ent{{Key: 0, S: st[0], T: st[1]}}})
@@ -214,6 +226,11 @@ func C01(tier string) int {
 	ops2 := append(attSingles(0, E2, false), attSingles(1, E2, false)...)
 	ops2 = append(ops2, attBatches(0, 1, false)...)
 	ops2 = append(ops2, attBatches(1, 0, false)...)
+	ops2 = withWriteFaults(ops2)
+	for _, o := range attSingles(0, []uint64{0, 1, 2}, false) {
+		o.Fault = "write"
+		ops2 = append(ops2, o)
+	}
 	st2 := newStats()
 	r2, err := bfs.Explore(bfs.Config[SOp]{
 		NewWorker: func() (bfs.Worker[SOp], error) {
